@@ -376,7 +376,10 @@ def gen(rng, tier):
                     out.append(line("I." + nm, w, n, ds, r))
     if thorough:
         out += exhaustive_small(rng)
-    return out
+    # the driver splits the case list into contiguous shards; the cost of a case grows with the square of its
+    # length (index-based model), so deal the cases round-robin to spread the long ones over all shards
+    K = 16
+    return [out[j] for i in range(K) for j in range(i, len(out), K)]
 
 
 def exhaustive_small(rng):
